@@ -40,3 +40,38 @@ Theorem C12_only_on_breach : forall hash c s now,
   (b_step hash c s (OCleanup now [])).1.1 = b_delete_expired c s now.
 Proof. intros. cbn. destruct (b_delete_expired c s now). reflexivity. Qed.
 Print Assumptions C12_only_on_breach.
+
+(* ---- tie to the source: the function bodies below are re-translated from /repo on every run
+   (harness/cmd/gofunc -> theories/Generated/Funcs.v, interpreted by theories/GoIR.v); the statements say that
+   the translated source computes what the model assumes, for ALL inputs. A change of the source that alters
+   the computed function breaks the proof. ---- *)
+From Coq Require Import String.
+From Cache Require Import GoIR TieCleanup.
+Open Scope string_scope.
+Open Scope Z_scope.
+From Cache.Generated Require Import Funcs.
+
+(* Trait.invokeCleanup: Evict is called iff a soft limit is exceeded or EvictionNeeded() returns true, with
+   EvictFraction (0 -> 0.1), rescaled on a count breach to 1 - CountSoftLimit*(1-frac)/count; cache_evict is
+   reported with the number Evict returned *)
+Theorem C12_source_eviction_decision : forall c i,
+  run_cleanup c i =
+  Some (if scan_runs c i then [[VZ (ci_now i - eff_del_after c)]] else [],
+        if evicts i then [[VF (evict_fraction i)]] else [],
+        if evicts i && ci_has_stat i then [[VStr "cache_evict"; VF (FOfZ (ci_evicted i))]] else []).
+Proof. exact tie_invoke_cleanup. Qed.
+Print Assumptions C12_source_eviction_decision.
+
+Theorem C12_source_count_overflow : forall limit len has_len,
+  run_count_overflow limit len has_len =
+  Some (if (limit =? 0) || negb has_len then (0, false) else (len, limit <? len)).
+Proof. exact tie_count_overflow. Qed.
+Print Assumptions C12_source_count_overflow.
+
+(* the usage counter eviction ranks by is maintained by PrepareRead exactly as the model's [bump] *)
+From Cache Require Import TieRead.
+Theorem C12_source_usage_counter : forall c now has_log has_stat e,
+  run_prepare_read fn_Trait_PrepareRead false c now has_log has_stat true e = Some (model_found c now e has_stat) /\
+  run_prepare_read fn_TraitOf_PrepareRead true c now has_log has_stat true e = Some (model_found c now e has_stat).
+Proof. intros; split; [exact (tie_prepare_read_found _ _ _ _ _) | exact (tie_prepare_read_of_found _ _ _ _ _)]. Qed.
+Print Assumptions C12_source_usage_counter.
